@@ -416,6 +416,68 @@ func runPlugins(r *mon.Run) {
 			}
 		}
 	}
+	// the same plugin recipient several times in one list, the plugin answering
+	// differently in every conversation ("@RANDOM@"): every stanza of the header
+	// is the answer of a conversation of its own, no two are the same bytes
+	for _, shape := range []string{"r,r (two values)", "r,r (one value)", "r,X,r", "r,r,r"} {
+		env.Install("rnd")
+		sc := &plug.Script{}
+		sc.Steps = append(sc.Steps, plug.Step{Send: plug.Stanza("recipient-stanza", []string{"0", "fake-rnd", "@RANDOM@"}, []byte("0123456789abcdef0123456789abcdef"))})
+		sc.Steps = append(sc.Steps, plug.Step{Send: plug.Stanza("done", nil, nil), NoReply: true})
+		env.SetScript("rnd", sc)
+		mkRnd := func() age.Recipient {
+			rc, err := plugin.NewRecipient(refage.Bech32Encode("age1rnd", []byte{9, 9}), &plugin.ClientUI{})
+			if err != nil {
+				panic(err)
+			}
+			return rc
+		}
+		one := mkRnd()
+		var rs []age.Recipient
+		switch shape {
+		case "r,r (two values)":
+			rs = []age.Recipient{mkRnd(), mkRnd()}
+		case "r,r (one value)":
+			rs = []age.Recipient{one, one}
+		case "r,X,r":
+			rs = []age.Recipient{mkRnd(), keys.P("X1").Recipient, mkRnd()}
+		default:
+			rs = []age.Recipient{one, mkRnd(), one}
+		}
+		dst := &mon.ObservingWriter{}
+		w, err := age.Encrypt(dst, rs...)
+		r.Eval(1)
+		desc := "the same plugin recipient several times: " + shape
+		r.Distinct(desc)
+		if err != nil {
+			r.Violate("plugin-repeated:refused", fmt.Sprintf("%s: %v", desc, err), map[string]any{"case": desc})
+			continue
+		}
+		w.Close()
+		hdr, _, perr := refage.ParseHeader(dst.Buf)
+		if perr != nil {
+			r.Violate("plugin-repeated:bad-header", fmt.Sprintf("%s: %v", desc, perr), map[string]any{"case": desc})
+			continue
+		}
+		seenArg := map[string]bool{}
+		n := 0
+		for _, st := range hdr.Stanzas {
+			if st.Type != "fake-rnd" {
+				continue
+			}
+			n++
+			k := strings.Join(st.Args, " ")
+			if seenArg[k] {
+				r.Violate("plugin-repeated:stanza-reused", fmt.Sprintf("%s: two stanzas of the header are the same answer of the plugin (%q), which answers differently in every conversation", desc, k), map[string]any{"case": desc})
+			}
+			seenArg[k] = true
+		}
+		want := strings.Count(shape[:strings.IndexAny(shape+" ", " ")], "r")
+		if n != want {
+			r.Violate("plugin-repeated:stanza-count", fmt.Sprintf("%s: %d plugin stanzas in the header, want %d", desc, n, want), map[string]any{"case": desc})
+		}
+		r.Count("plugin_repeated_recipient_cases", 1)
+	}
 	// plugin recipients that FAIL to wrap the file key, in every way a session
 	// can fail — also after a stanza was already handed over: a recipient that
 	// fails makes Encrypt refuse, with nothing written
